@@ -55,6 +55,8 @@ def cases(tier, seed):
             yield {"kind": "sgpr_bound", "m": m, "lik": lk, "seed": rnd.randrange(10**6)}
         for mean, depth, dims in itertools.product([0.0, 1.2], [1, 2], [1, 2]):
             yield {"kind": "wiski_fantasy", "mean": mean, "depth": depth, "dims": dims, "seed": rnd.randrange(10**6)}
+        for mean, depth, dims in itertools.product([0.0, 1.2], [2, 3], [1, 2]):
+            yield {"kind": "wiski_fantasy", "mean": mean, "depth": depth, "dims": dims, "late_eval": True, "seed": rnd.randrange(10**6)}
         for sizes in ([12], [16], [9, 14], [14, 9], [8, 8], [6, 7, 8]):
             yield {"kind": "interp", "sizes": sizes, "seed": rnd.randrange(10**6)}
     for kern, dims in itertools.product(["rbf", "matern2.5"], [1, 2]):
@@ -239,6 +241,26 @@ def _kiss_kernel(case, ctx, g):
     with torch.no_grad():
         gotxx = gik(x1).to_dense()
     ctx.close("kiss_kernel_WKW", gotxx, _kiss_dense(gik, x1, x1), (5e-6, 5e-6), cls=f"kiss:{'x'.join(map(str, sizes))}:xx", sizes=sizes)
+    # W K_uu W^T on the CURRENT grid: evaluation mode, one evaluation, then the grid moves (explicit update_grid, and the
+    # data-dependent grid of grid_bounds=None meeting inputs of another range), then another evaluation
+    import gpytorch
+
+    gik.eval()
+    with torch.no_grad():
+        gik(x1, x2).to_dense()
+        newgrid = gpytorch.utils.grid.create_grid(list(sizes), [(-1.3, 1.1)] * d)
+        gik.update_grid(newgrid)
+        got2 = gik(x1, x2).to_dense()
+    ctx.close("kiss_kernel_WKW", got2, _kiss_dense(gik, x1, x2), (5e-6, 5e-6), cls="kiss:after_update_grid", sizes=sizes)
+    K = gpytorch.kernels
+    dyn = K.GridInterpolationKernel(K.RBFKernel(ard_num_dims=d), grid_size=sizes if d > 1 else sizes[0], num_dims=d)
+    dyn.base_kernel.lengthscale = util.rand(g, 1, d) * 0.8 + 0.4
+    dyn.eval()
+    with torch.no_grad():
+        dyn(x1).to_dense()
+        far = x1 * 2.5 + 0.7
+        got3 = dyn(far).to_dense()
+    ctx.close("kiss_kernel_WKW", got3, _kiss_dense(dyn, far, far), (5e-6, 5e-6), cls="kiss:dynamic_grid_moved", sizes=sizes)
 
 
 def _nystrom(case, ctx, g):
@@ -425,11 +447,13 @@ def _wiski(case, ctx, g):
     from vf import util
 
     name = "kiss1d" if case["dims"] == 1 else "kiss2d"
+    late = bool(case.get("late_eval"))
     with torch.no_grad():
         m, lik, X, y, xs = _mk_model(name, g, mean_const=case["mean"])
         d = X.shape[-1]
         m(xs)
         cur, Xall, yall = m, X, y
+        chain = []
         for level in range(case["depth"]):
             Xf, yf = util.rand(g, 2, d) * 1.4 - 0.7, util.randn(g, 2)
             try:
@@ -438,13 +462,29 @@ def _wiski(case, ctx, g):
                 ctx.fail("wiski_fantasy", f"KISS-GP get_fantasy_model raised {type(e).__name__}: {str(e)[:160]}", "raise", exc=type(e).__name__)
                 return
             Xall, yall = torch.cat([Xall, Xf]), torch.cat([yall, yf])
-            out = cur(xs)
-            n = Xall.shape[0]
-            J = m.covar_module(torch.cat([Xall, xs], -2)).to_dense()
-            mu = m.mean_module(torch.cat([Xall, xs], -2))
-            rm, rc, _, _ = util.dense_conditional(J[:n, :n], J[n:, :n], J[n:, n:], mu[:n], mu[n:], lik.noise.detach() * torch.eye(n), yall)
-            ctx.close("wiski_fantasy", out.mean, rm, (1e-6, 1e-6), cls=f"wiski:mean:m{case['mean']}", level=level, prior_mean=case["mean"])
-            ctx.close("wiski_fantasy", out.covariance_matrix, rc, (1e-6, 1e-6), cls="wiski:cov", level=level)
+            chain.append((level, cur, Xall, yall))
+            if not late:
+                _wiski_check(ctx, case, m, lik, xs, *chain[-1])
+        if late:
+            # every fantasy model is evaluated for the first time only after it has spawned its own fantasy (creating a
+            # fantasy model must leave its source's predictions alone, also a source that has not predicted yet)
+            for item in chain:
+                _wiski_check(ctx, case, m, lik, xs, *item)
+
+
+def _wiski_check(ctx, case, m, lik, xs, level, cur, Xall, yall):
+    import torch
+
+    from vf import util
+
+    out = cur(xs)
+    n = Xall.shape[0]
+    J = m.covar_module(torch.cat([Xall, xs], -2)).to_dense()
+    mu = m.mean_module(torch.cat([Xall, xs], -2))
+    rm, rc, _, _ = util.dense_conditional(J[:n, :n], J[n:, :n], J[n:, n:], mu[:n], mu[n:], lik.noise.detach() * torch.eye(n), yall)
+    tag = ":late" if case.get("late_eval") else ""
+    ctx.close("wiski_fantasy", out.mean, rm, (1e-6, 1e-6), cls=f"wiski:mean:m{case['mean']}{tag}", level=level, prior_mean=case["mean"], late=bool(case.get("late_eval")))
+    ctx.close("wiski_fantasy", out.covariance_matrix, rc, (1e-6, 1e-6), cls="wiski:cov" + tag, level=level, late=bool(case.get("late_eval")))
 
 
 def _interp(case, ctx, g):
